@@ -17,6 +17,9 @@ def to_plain(ns, v):
     """result / argument -> plain built-in data (tuples and bytes become lists)"""
     if isinstance(v, ns.SyncedCollection):
         return v._to_base()
+    if type(v).__name__ == "Synced" and hasattr(v, "plain"):
+        import copy
+        return copy.deepcopy(v.plain)      # a live synced argument counts as its content
     if isinstance(v, (list, tuple)):
         return [to_plain(ns, x) for x in v]
     if isinstance(v, (bytes, bytearray)):
@@ -213,6 +216,8 @@ class Shadow:
     """Replays a structured program on the real classes and on plain shadows."""
 
     def __init__(self, ns, world, fam):
+        import proto as _proto
+        _proto.RUNNER[0] = self          # resolves live synced arguments (proto.Synced)
         self.ns = ns
         self.world = world
         self.fam = fam
@@ -376,9 +381,11 @@ class Shadow:
         before_file = self.world.read(res)
         # --- the real call
         try:
-            from proto import apply_call
+            from proto import apply_call, ProgramInvalid
             real = apply_call(obj, name, args)
             real_err = None
+        except ProgramInvalid:
+            raise
         except Exception as e:  # noqa: BLE001
             real, real_err = None, e
         after_file = self.world.read(res)
